@@ -289,10 +289,10 @@ def check(tier: str, seed: int) -> Result:
                 ("H8-one-publisher-one-subscriber", 2), ("H9-subscription-opened-before-channels-exist", 1), ("H10-preopened-exact-and-concurrent-subscriber", 1), ("H11-message-shapes", 1), ("H12-connect-and-close-around-traffic", 1), ("H13-publish-before-anyone-connects", 1), ("H14-eighteen-channels-polling-consumer", 0), ("H15-used-in-a-forked-child", 1), ("H16-callback-subscription", 1), ("H17-two-subscribers-disjoint-patterns", 1)]
         cap = 400000
     else:
-        plan = [("H1-two-publishers-new-channel", 3), ("H2-publishers-and-subscriber", 3), ("H3-routing-two-channels", 2),
-                ("H4-existing-channel", 3), ("H5-three-publishers", 2), ("H6-two-subscribers", 2),
+        plan = [("H1-two-publishers-new-channel", 3), ("H2-publishers-and-subscriber", 2), ("H3-routing-two-channels", 2),
+                ("H4-existing-channel", 2), ("H5-three-publishers", 2), ("H6-two-subscribers", 2),
                 ("H7-one-message-each-two-new-channels", 3), ("H8-one-publisher-one-subscriber", 3),
-                ("H9-subscription-opened-before-channels-exist", 2), ("H10-preopened-exact-and-concurrent-subscriber", 3), ("H11-message-shapes", 2), ("H12-connect-and-close-around-traffic", 2), ("H13-publish-before-anyone-connects", 2), ("H14-eighteen-channels-polling-consumer", 1), ("H15-used-in-a-forked-child", 2), ("H16-callback-subscription", 3), ("H17-two-subscribers-disjoint-patterns", 3)]
+                ("H9-subscription-opened-before-channels-exist", 2), ("H10-preopened-exact-and-concurrent-subscriber", 3), ("H11-message-shapes", 2), ("H12-connect-and-close-around-traffic", 2), ("H13-publish-before-anyone-connects", 2), ("H14-eighteen-channels-polling-consumer", 1), ("H15-used-in-a-forked-child", 2), ("H16-callback-subscription", 3), ("H17-two-subscribers-disjoint-patterns", 2)]
         cap = 3000000
     jobs = []
     per: Dict[str, dict] = {}
